@@ -184,7 +184,7 @@ TABLE['C07'] = dict(
     ])
 
 TABLE['C08'] = dict(
-    imports=[A + 'DemePerm', A + 'VanLoan', A + 'RewardsThm', A + 'Labelled'],
+    imports=[A + 'DemePerm', A + 'VanLoan', A + 'RewardsThm', A + 'Labelled', A + 'ConfigThm'],
     summary='Proved: relabelling states by any bijection leaves every moment and cdf unchanged (perm_accum / perm_cdf, E_reindex); '
             'the labelled generator is invariant under permutation of particles; deme rewards sum to one. Equivariance of the code '
             'model `transit` under a permutation of the deme axis is exercised by the correspondence, not yet a theorem (partial); '
@@ -203,6 +203,15 @@ TABLE['C08'] = dict(
         ('exp_reindex', 'PG.ExpLaw.E_reindex', 'the exponential commutes with reindexing'),
         ('particle_order_irrelevant', 'PG.QLs_perm', 'the labelled generator ignores the order of particles'),
         ('deme_rewards_sum_one', 'PG.deme_rewards_sum_one', 'per-deme fractions sum to one'),
+        ('glue_named_semantics', 'PG.Config.config_named_semantics', 'INPUT GLUE: position i of the size vector, migration matrix, initial vector and DemeReward index built from the user\'s containers is about the population NAMED axis[i] (any shapes, unsorted names, unsampled demes appended in ANY set order)'),
+        ('glue_listing_order', 'PG.Config.config_listing_order_irrelevant', 'listing the populations in another order in the sample dict / size dict / migration dict, listing unsampled ones with 0 or omitting them, any set iteration order: the tables are the name-matching permutation (permTs / permMig / permC) of each other'),
+        ('glue_rename', 'PG.Config.config_rename_equivariant', 'a consistent injective renaming yields the name-matching permutation of the same tables (sorting may move the axis)'),
+        ('glue_hash_independent', 'PG.Config.config_hash_independent', 'the values attached to a name do not depend on the iteration order of the Python set of unsampled names'),
+        ('glue_to_moments', 'PG.Config.config_moments_listing_order_irrelevant', 'glue + state level composed: moments of DemeReward(name) built from two listings of the same named input are equal (instantiates C08_moments_deme)'),
+        ('glue_sizes_by_dict_order_defect', 'PG.Config.sizesByDictOrder_violates', 'kernel-checked: looking sizes up by dict position attaches them to the wrong name'),
+        ('glue_mig_by_sorted_names_defect', 'PG.Config.migBySortedNames_violates', 'kernel-checked: indexing the sorted epoch names in migrate_unlinked attaches rates to the wrong pair'),
+        ('glue_deme_reward_sorted_defect', 'PG.Config.demeRewardBySortedNames_violates', 'kernel-checked: the pre-fix DemeReward lookup'),
+        ('glue_nonvacuous', 'PG.Config.exInput_current_ok', 'a 4-deme instance with unsorted names and two omitted populations satisfies the hypotheses and the conclusion'),
     ])
 
 TABLE['C09'] = dict(
@@ -227,7 +236,7 @@ TABLE['C09'] = dict(
     ])
 
 TABLE['C10'] = dict(
-    imports=[A + 'MeanIncrement', A + 'Glue'],
+    imports=[A + 'MeanIncrement', A + 'Glue', A + 'ApiThm'],
     summary='Proved: redundant boundaries merge (E_add), the sweep over any grid equals direct evaluation (so refinement and the '
             'three end-time routes agree), durations of a direct evaluation are non-negative and sum to t, raw accumulation of '
             'non-negative rewards is non-decreasing, the horizon search either reaches p_absorption or must warn. '
@@ -241,6 +250,15 @@ TABLE['C10'] = dict(
         ('direct_pieces', 'PG.specFactors_durations', 'exactly the epochs that start before t, each cut at t'),
         ('monotone', 'PG.accum_mono', 'raw moments of non-negative rewards do not decrease when time is added'),
         ('horizon_spec', 'PG.absorption_spec', 'the doubling search: no warning iff the threshold was reached; warning implies all iterations used'),
+        ('call_routes_agree', 'PG.Api.api_routes_agree', 'CALL LAYER: moment(end_time=T), moment() on an object whose horizon is T, and accumulate([T]) are the same number'),
+        ('call_window_difference', 'PG.Api.api_window_difference', 'moment(start_time=a>0, end_time=b) is accumulate at b minus accumulate at a'),
+        ('call_window_additive', 'PG.Api.api_window_additive', 'windows [0,a] and [a,b] add up to [0,b] for every order and centring flag'),
+        ('call_window_additive_at_zero', 'PG.Api.api_window_additive_at_zero', 'the boundary a = 0 (single-accumulate route) under "nothing accumulated at time 0"'),
+        ('call_explicit_zero_end', 'PG.Api.api_explicit_zero_end_value', 'an explicit end_time = 0 yields 0, not the default horizon'),
+        ('call_explicit_zero_start', 'PG.Api.api_explicit_zero_start', 'an explicit start_time = 0 overrides a positive default start'),
+        ('call_none_is_default', 'PG.Api.api_none_is_default', 'None arguments are the defaults (of any value)'),
+        ('call_pointwise', 'PG.Api.api_accumulate_pointwise', 'accumulate on a list of times is entrywise the single-time call'),
+        ('call_falsy_times_defect', 'PG.Api.api_falsyTimes_counterexample', 'kernel-checked: `x or default` replaces an explicit 0'),
     ])
 
 TABLE['C11'] = dict(
@@ -333,7 +351,7 @@ TABLE['C14'] = dict(
     ])
 
 TABLE['C15'] = dict(
-    imports=[A + 'Corollaries', A + 'RoutesThm', A + 'Conservation', A + 'MomentsThm', A + 'RewardsThm', A + 'SampleConsistency'],
+    imports=[A + 'Corollaries', A + 'RoutesThm', A + 'Conservation', A + 'MomentsThm', A + 'RewardsThm', A + 'SampleConsistency', A + 'ApiThm'],
     summary='Proved: centring = binomial / inclusion-exclusion combination of raw moments = central moment of any linear expectation '
             '(all k), explicit k = 2, 3; permutation averaging makes cross moments symmetric (all permutations); additivity in each '
             'reward slot; unit reward neutral in products; covariance assembly symmetric. Routes: cached properties, dist.moment and '
@@ -354,6 +372,9 @@ TABLE['C15'] = dict(
         ('unit_neutral', 'PG.eval_prod_unit', 'ProductReward([Unit, r]) = r'),
         ('pointwise_in_time', 'PG.accumulateModel_apply', 'the algebra acts independently at every query time'),
         ('cov_symm', 'PG.covSFS_symm', 'SFS covariance is symmetric'),
+        ('call_layer_exact', 'PG.Api.accumulateCall_eq', 'CALL LAYER: accumulate(k, times, rewards, center, permute) either raises (exactly when the mirrored checks fire) or returns accumulateModel at each time on the first k rewards'),
+        ('call_routes_agree', 'PG.Api.api_routes_agree', 'moment / accumulate / object-level end time are the same number'),
+        ('call_none_is_default', 'PG.Api.api_none_is_default', 'rewards=None means [self.reward]*k; None times mean the defaults'),
     ])
 
 TABLE['C16'] = dict(
@@ -443,7 +464,7 @@ TABLE['C19'] = dict(
     ])
 
 TABLE['C20'] = dict(
-    imports=[A + 'ValidateThm'],
+    imports=[A + 'ValidateThm', A + 'ApiThm'],
     summary='Proved on the model of the argument checks (order and boundary conditions mirrored): validate rejects exactly the invalid classes '
             '(complete and sound), boundary members decided, the pre-fix recombination-rate route refuted. Documented exceptions: order-0 '
             'accumulate returns ones before any check (not a listed class). Partial: the NaN clause is runtime exploration.',
@@ -457,4 +478,8 @@ TABLE['C20'] = dict(
         ('boundary_times', 'PG.Validate.boundary_times', 'end = start accepted, end < start rejected'),
         ('boundary_query', 'PG.Validate.boundary_query', 'quantile 0 and 1 accepted'),
         ('order0_escapes', 'PG.Validate.order0_escapes', 'order-0 accumulation returns before any check (documented)'),
+        ('call_length_mismatch', 'PG.Api.api_length_mismatch_rejected', 'CALL LAYER: a reward tuple whose length differs from the order is rejected by accumulate and moment for EVERY k (incl. 0 and negative), times, centring and permutation flag'),
+        ('call_negative_order', 'PG.Api.api_negative_order_rejected', 'a negative order is rejected whatever the rewards'),
+        ('call_order0', 'PG.Api.api_order0', 'documented exception: order 0 with no rewards returns ones before any time check'),
+        ('call_no_length_check_defect', 'PG.Api.api_centred_reads_prefix_noLengthCheck_counterexample', 'kernel-checked: without the check in accumulate a longer tuple silently uses its prefix (the check in _accumulate is not equivalent)'),
     ])
